@@ -313,6 +313,18 @@ func c16ShortLong(r *Run) {
 					err = fmt.Errorf("PANIC %v", x)
 				}
 			}()
+			if entry == "VueRegistered" || entry == "VueRegisteredFragment" { // the tags registered one by one on a Vue
+				vue := vuego.NewVue(m)
+				for file, tag := range tags {
+					vue.RegisterComponent(tag, file)
+				}
+				if entry == "VueRegistered" {
+					err = vue.Render(&buf, "page.vuego", data)
+				} else {
+					err = vue.RenderFragment(&buf, "page.vuego", data)
+				}
+				return
+			}
 			t := vuego.NewFS(m, vuego.WithComponents())
 			switch entry {
 			case "LoadRender":
@@ -327,7 +339,7 @@ func c16ShortLong(r *Run) {
 	}
 	for c := 0; c < n; c++ {
 		xs := gen(1)
-		entry := Pick(rr, []string{"LoadRender", "RenderFile", "RenderString"})
+		entry := Pick(rr, []string{"LoadRender", "RenderFile", "RenderString", "VueRegistered", "VueRegisteredFragment"})
 		pre := Pick(rr, []string{"", `<h1 v-once>head</h1>`, `<h1>head</h1>`})
 		long, short := pre+src(xs, false), pre+src(xs, true)
 		lo, lerr := render(long, entry)
